@@ -11,7 +11,6 @@ import (
 	"encoding/json"
 	"flag"
 	"fmt"
-	"log"
 	"os"
 	"time"
 
@@ -19,6 +18,11 @@ import (
 	"verif/harness/ndj"
 	_ "verif/harness/quiet"
 )
+
+func fatal(a ...any) {
+	fmt.Fprintln(os.Stderr, a...)
+	os.Exit(1)
+}
 
 func main() {
 	sched := flag.String("sched", "", "NDJSON file of deterministic schedules")
@@ -38,7 +42,7 @@ func main() {
 	if *gen != "" {
 		w, err := ndj.NewWriter(*gen)
 		if err != nil {
-			log.Fatal(err)
+			fatal(err)
 		}
 		for _, c := range locks.GenStress(*seed, *rounds, locks.StressEntries) {
 			w.Write(c)
@@ -48,7 +52,7 @@ func main() {
 	}
 	w, err := ndj.NewWriter(*out)
 	if err != nil {
-		log.Fatal(err)
+		fatal(err)
 	}
 	finish := func(next int, code int) {
 		w.Close()
@@ -61,7 +65,7 @@ func main() {
 	}
 	raw, err := ndj.ReadAll(path)
 	if err != nil {
-		log.Fatal(err)
+		fatal(err)
 	}
 	for i := *from; i < len(raw); i++ {
 		if *budget > 0 && time.Since(t0) > time.Duration(*budget)*time.Second {
@@ -72,19 +76,19 @@ func main() {
 		if *sched != "" {
 			var sc locks.Schedule
 			if err := json.Unmarshal(b, &sc); err != nil {
-				log.Fatal(err)
+				fatal(err)
 			}
 			dead, err = locks.RunSchedule(i+1, &sc, w, *work, time.Duration(*graceMs)*time.Millisecond)
 		} else {
 			var sc locks.StressCase
 			if err := json.Unmarshal(b, &sc); err != nil {
-				log.Fatal(err)
+				fatal(err)
 			}
 			dead, err = locks.RunStress(i+1, &sc, w, *work, time.Duration(*watchdogMs)*time.Millisecond, time.Duration(*graceMs)*time.Millisecond)
 		}
 		if err != nil {
 			w.Close()
-			log.Fatalf("case %d: %v", i, err)
+			fatal(fmt.Sprintf("case %d: %v", i, err))
 		}
 		if dead {
 			finish(i+1, 3)
